@@ -85,6 +85,15 @@ def check_case(case):
     elif fam == "version":
         spec = kind_spec("Converter", dict(vo=3.3, eff=0.9), True)
     s = build_holes(spec) if case.get("holes") else build(spec)
+    if case.get("remux"):   # an analysis, then the mux is deleted and re-added with reversed priority, THEN saved
+        from ..muxsys import apply_remux
+        try:
+            quiet_call(s.solve)
+        except (RuntimeError, ValueError):
+            pass
+        s.params()
+        spec = apply_remux(s, spec)
+        res.classes.add("remux")
     res.stats["transitions"] += len(spec["comps"]) + 2
     if case.get("holes"):
         res.classes.add("edited-system")
@@ -193,6 +202,8 @@ def gen_cases(tier):
         for inputs in itertools.product(INPUT_OPTS[::2] if (k == 3 or tier == "quick") else INPUT_OPTS, repeat=k):
             for order in itertools.permutations(range(k)):
                 yield dict(fam="mux", inputs=[list(x) for x in inputs], pal=pal, rs_list=True, rails=(sum(order) + k) % 2 == 0, order=list(order))
+            if k == 2:
+                yield dict(fam="mux", inputs=[list(x) for x in inputs], pal=pal, rs_list=False, rails=False, order=None, remux=True)
     yield dict(fam="version")
 
 
